@@ -89,7 +89,7 @@ def gen_config(r, n, pool, w, clean=False):
                 key = gen_range(r, n, clean) if (not heavy or r.random() < 0.75) else r.choice(["all", "ALL", "All"])
                 ed[key] = r.choice([0, 1, 1, 2, 7, 9]) if not (clean and aa.get("presets")) else r.choice(aa["presets"])["id"]
             aa["edits"] = ed
-            mp.append("edits@" + ",".join("%s:%d" % (hx(k), ed[k]) for k in sorted(ed)))
+            mp.append("edits@" + ",".join("%s:%d" % (hx(k), ed[k]) for k in ed))
         cfg["active_area"] = aa
     if r.random() < 0.35:
         rm = []
@@ -112,7 +112,7 @@ def gen_config(r, n, pool, w, clean=False):
             key = gen_range(r, n, clean) if (not heavy or r.random() < 0.7) else r.choice(["all", "ALL", "aLl"])
             sc[key] = r.random() < 0.5
         cfg["scene_cuts"] = sc
-        mp.append("cuts@" + ",".join("%s:%d" % (hx(k), 1 if sc[k] else 0) for k in sorted(sc)))
+        mp.append("cuts@" + ",".join("%s:%d" % (hx(k), 1 if sc[k] else 0) for k in sc))
     if heavy and r.random() < 0.25:
         v = {"max_display_mastering_luminance": r.choice([1000, 4000, 10000, 10001, 20000, 600]), "min_display_mastering_luminance": r.choice([1, 50, 10, 10001, 0]),
              "max_content_light_level": r.choice([0, 1000, 10000, 10001]), "max_frame_average_light_level": r.choice([0, 400, 10001])}
